@@ -14,7 +14,8 @@
 // Coq model (Model/RsmApply.v, accumulator instance) must predict every
 // observation (the differential check).
 //
-// case:  <id> <kind> cap=<n> ord=<0|1> z=<0|1> oh=<n> | op ; op ; ...
+// case:  <id> <kind> cap=<n> ord=<0|1> z=<0|1> oh=<n> [ec=<0..3>] [ac=<0|1>] | op ; op ; ...
+//   ec: application entries with a payload are plain (0), EncodedEntry uncompressed (1) / snappy (2), mixed (3)
 //   kind reg|conc|disk, cap = session LRU size, ord = OrderedConfigChange,
 //   z = snapshot compression, oh = config.CompactionOverhead
 // ops (entries get consecutive indexes in op order, the term is 1 + number of t ops):
@@ -33,12 +34,20 @@
 //   P                                             A saves a snapshot and keeps the record (its LogReader does)
 //   K <overlap> <split>                           B installs the record A's LogReader holds in memory — saved by an earlier P / I,
 //                                                 A may have applied any number of entries and config changes since — then gets the rest
+//   Q <r|x> <override> <overhead> <cindex>        B is asked for a snapshot the way NodeHost.RequestSnapshot asks: SnapshotOption.Validate,
+//                                                 node.requestSnapshot, node.handleSnapshot (a second request at the same applied index is
+//                                                 rejected), node.save, result delivered to the request
 //   T <j> <r|x> <override> <overhead> <cindex>    the pending task goes to B and B saves FROM INSIDE it: right after the
 //                                                 first entry at or after the j-th of the task has been reported (per-entry
 //                                                 apply path, concurrent / on-disk kinds; otherwise after the task)
 //   M <overlap> <pre>                             on-disk: a fresh follower that applied <pre> entries asks B for a streamed
 //                                                 snapshot (real node.handleSnapshotTask -> canStream -> node.stream -> chunk
 //                                                 writer -> the follower's chunk receiver), installs it, gets the rest of the log
+//   D <overlap> <pre>                             on-disk: two followers need a streamed snapshot from B at overlapping times (second Stream task
+//                                                 while the first is queued): each request ends in a stream or in a failure report to raft
+//   Z <overlap> <pre>                             a follower is sent B's snapshot (stream / recorded file) through its real chunk receiver on a
+//                                                 sync-aware file system; power failure at EVERY file system operation up to the end of
+//                                                 node.recover, restart from what was durable, rest of the log, must equal A
 //   V <overlap> <pre>                             on-disk: A saves; raft on A asks for lagging B to be sent a snapshot (real NodeHost.sendMessage decides
 //                                                 file vs stream); B installs the RECEIVED record (its file is shrunk), catches up, and raft on B
 //                                                 then asks for a fresh follower to be sent a snapshot, again through sendMessage
@@ -48,12 +57,14 @@
 package main
 
 import (
+	"bytes"
 	"fmt"
 	"os"
 	"path/filepath"
 	"strconv"
 	"strings"
 
+	dragonboat "github.com/lni/dragonboat/v4"
 	pb "github.com/lni/dragonboat/v4/raftpb"
 	hk "github.com/lni/dragonboat/v4/verifhooks/c08"
 
@@ -75,11 +86,19 @@ type world struct {
 	feat    map[string]bool
 	cur     string // what the harness is doing, for the panic monitor
 	nfol    uint64 // followers created so far
+	plain   map[uint64][]byte // index -> the payload the client proposed
 }
 
 func (w *world) emit(s string) { w.lines = append(w.lines, fmt.Sprintf("%s %d %s", w.id, w.k, s)) }
 
 func (w *world) emitResults(r *replica) {
+	// the user state machine is handed, for index i, the payload proposed for index i
+	for i, cmd := range r.usm.gotCmds() {
+		if want, ok := w.plain[i]; ok && !bytes.Equal(cmd, want) {
+			w.viol = append(w.viol, fmt.Sprintf("WRONG-COMMAND replica %s: the state machine was handed [%x] for entry %d whose payload is [%x]", r.name, cmd, i, want))
+		}
+		delete(r.usm.gotCmds(), i)
+	}
 	r.newResults(func(s string) {
 		w.emit(s)
 		// monitor: what B reports for an entry is what A reported for it
@@ -118,6 +137,10 @@ func parseHeader(h []string) (string, params, error) {
 			p.compress = n == 1
 		case "oh":
 			p.overhead = n
+		case "ec":
+			p.enc = n
+		case "ac":
+			p.autoc = n == 1
 		}
 	}
 	return h[0], p, nil
@@ -178,6 +201,13 @@ func (w *world) catchUp(r *replica, from uint64, split uint64) {
 }
 
 func (w *world) newRemovals(r *replica, from int) {
+	for _, c := range r.ldb.compactions {
+		if c.to > c.recorded {
+			w.viol = append(w.viol, fmt.Sprintf("COMPACTION-BEYOND-REMOVED replica %s asked the log store to reclaim entries up to %d while entries were only removed up to %d", r.name, c.to, c.recorded))
+		}
+		w.feat["auto-compaction"] = true
+	}
+	r.ldb.compactions = nil
 	for _, rm := range r.ldb.removals[from:] {
 		w.emit(fmt.Sprintf("%s.compact %d", r.name, rm.to))
 		w.feat["compaction"] = true
@@ -218,6 +248,35 @@ func (w *world) afterSave(r *replica, tag string, idx uint64, nrm int) {
 	}
 	r.removeLog()
 	w.newRemovals(r, nrm)
+}
+
+// userSnapshot: NodeHost.RequestSnapshot on B through the node's own functions:
+// SnapshotOption.Validate -> node.requestSnapshot -> pendingSnapshot.request (the
+// SSRequest is built there) -> node.handleSnapshot -> node.save -> the request's result
+func (w *world) userSnapshot(r *replica, f []string) {
+	w.flush()
+	opt := dragonboat.SnapshotOption{
+		OverrideCompactionOverhead: f[2] == "1",
+		CompactionOverhead:         u(f[3]),
+		CompactionIndex:            u(f[4]),
+	}
+	if f[1] == "x" {
+		opt.Exported = true
+		opt.ExportPath = fmt.Sprintf("/c08/export-%s-%d", r.name, w.k)
+		if err := hk.MkdirAll(opt.ExportPath, w.fs); err != nil {
+			panic(err)
+		}
+	}
+	nrm := len(r.ldb.removals)
+	idx, outcome, err := r.node.UserSnapshot(opt)
+	if err != nil {
+		panic(err)
+	}
+	w.feat["snapshot-through-api"] = true
+	if outcome == "completed" && idx == 0 || outcome != "completed" && idx != 0 {
+		w.viol = append(w.viol, fmt.Sprintf("SNAPSHOT-RESULT replica %s: request %v ended %s with index %d", r.name, f, outcome, idx))
+	}
+	w.afterSave(r, "Q "+outcome, idx, nrm)
 }
 
 // saveInTask: the snapshot worker runs B's save between two entries of the task
@@ -308,21 +367,31 @@ func (w *world) newFollower(src *replica, pre uint64) *replica {
 	return c
 }
 
-// deliverFile: the transport sends the file of snapshot record ss to replica c,
-// whose chunk receiver leaves it finalised (flag file present) in c's directory
-func (w *world) deliverFile(ss pb.Snapshot, c *replica) pb.Snapshot {
-	env := c.node.SnapshotEnv(ss.Index)
-	var ssb pb.Snapshot
-	pb.MustUnmarshal(&ssb, pb.MustMarshal(&ss))
-	ssb.Filepath = env.GetFilepath()
-	if err := env.CreateTempDir(); err != nil {
-		panic(err)
+// deliverFile: the transport sends the file of snapshot record ss to replica c:
+// the chunks a snapshot job produces (splitSnapshotMessage + loadChunkData) go
+// through c's real chunk receiver, which leaves the file finalised (flag file
+// present) in c's directory and hands over the InstallSnapshot message.
+// ok = false: the receiver dropped it (c already has a snapshot directory of that index).
+func (w *world) deliverFile(ss pb.Snapshot, from uint64, c *replica) (pb.Snapshot, bool) {
+	var rec pb.Snapshot
+	pb.MustUnmarshal(&rec, pb.MustMarshal(&ss))
+	m := pb.Message{Type: pb.InstallSnapshot, ShardID: 1, From: from, To: c.id, Snapshot: rec}
+	chunks, err := hk.FileChunks(m, 0, w.fs)
+	if err != nil {
+		panic(fmt.Sprintf("the snapshot job can not read the file of snapshot %d: %v", ss.Index, err))
 	}
-	copyFile(w.fs, ss.Filepath, env.GetTempFilepath())
-	if err := env.FinalizeSnapshot(&ssb); err != nil {
-		panic(err)
+	var received []pb.Message
+	rcv := hk.NewChunk(func(mb pb.MessageBatch) { received = append(received, mb.Requests...) },
+		func(uint64, uint64, uint64) {}, snapRoot, 0, c.fs)
+	for _, ch := range chunks {
+		if !rcv.Add(ch) {
+			break
+		}
 	}
-	return ssb
+	if len(received) != 1 {
+		return pb.Snapshot{}, false
+	}
+	return received[0].Snapshot, true
 }
 
 // streamInto: replica c is brought up to date by src. decide = false: a Stream
@@ -356,7 +425,11 @@ func (w *world) streamInto(src *replica, c *replica, ov uint64, decide bool) {
 			if w.p.kind == "disk" {
 				w.viol = append(w.viol, fmt.Sprintf("ONDISK-FILE-SENT on-disk replica %s answered the snapshot request for replica %d with the file of its recorded snapshot %d (dummy=%v, shrunk image=%v) instead of streaming its state machine", src.name, id, ss.Index, ss.Dummy, shrunk))
 			}
-			received = append(received, pb.Message{Type: pb.InstallSnapshot, Snapshot: w.deliverFile(ss, c)})
+			got, ok := w.deliverFile(ss, src.id, c)
+			if !ok {
+				panic("the follower's chunk receiver dropped the file")
+			}
+			received = append(received, pb.Message{Type: pb.InstallSnapshot, Snapshot: got})
 			stream = false
 		} else if !stream {
 			panic("sendMessage neither sent a file nor asked for a stream")
@@ -377,7 +450,16 @@ func (w *world) streamInto(src *replica, c *replica, ov uint64, decide bool) {
 	if len(received) != 1 || received[0].Type != pb.InstallSnapshot {
 		panic(fmt.Sprintf("follower received %d messages", len(received)))
 	}
-	ss := received[0].Snapshot
+	w.installReceived(src, c, received[0].Snapshot, ov)
+}
+
+// installReceived: replica c's chunk receiver delivered the InstallSnapshot message
+// carrying ss (sent by src); c's step worker makes the record durable and removes
+// the flag file, processSnapshot, recover, then the rest of the log
+func (w *world) installReceived(src *replica, c *replica, ss pb.Snapshot, ov uint64) {
+	id := c.id
+	old := w.cur
+	defer func() { w.cur = old }()
 	w.emit(fmt.Sprintf("M stream idx=%d term=%d od=%d", ss.Index, ss.Term, ss.OnDiskIndex))
 	w.feat["stream"] = true
 	if ss.OnDiskIndex > ss.Index {
@@ -392,8 +474,8 @@ func (w *world) streamInto(src *replica, c *replica, ov uint64, decide bool) {
 	if err := c.ldb.SaveRaftState([]pb.Update{{ShardID: 1, ReplicaID: id, Snapshot: ss}}, 0); err != nil {
 		panic(err)
 	}
-	env := c.node.SnapshotEnv(ss.Index)
-	if err := env.RemoveFlagFile(); err != nil {
+	// engine.onSnapshotSaved
+	if err := c.node.RemoveSnapshotFlagFile(ss.Index); err != nil {
 		panic(err)
 	}
 	if c.ldb.maxIndex < ss.Index {
@@ -428,6 +510,230 @@ func (w *world) streamInto(src *replica, c *replica, ov uint64, decide bool) {
 	if a, b := w.A.obs(), c.obs(); a != b {
 		w.viol = append(w.viol, fmt.Sprintf("STREAM-TWINS-DIFFER uninterrupted [%s] replica %s that installed the snapshot of index %d [%s]", a, c.name, ss.Index, b))
 	}
+}
+
+// recSink collects the chunks of a stream
+type recSink struct {
+	to     uint64
+	chunks []pb.Chunk
+}
+
+func (s *recSink) Receive(c pb.Chunk) (bool, bool) {
+	if !c.IsPoisonChunk() {
+		s.chunks = append(s.chunks, c)
+	}
+	return true, false
+}
+func (s *recSink) Close() error        { return nil }
+func (s *recSink) ShardID() uint64     { return 1 }
+func (s *recSink) ToReplicaID() uint64 { return s.to }
+
+func (w *world) outcome(src *replica, to uint64, accepted, reported bool) {
+	if accepted == reported {
+		w.viol = append(w.viol, fmt.Sprintf("STREAM-REQUEST-OUTCOME the request to stream a snapshot from replica %s to replica %d had accepted=%v and failure-reported=%v: raft's remote stays in snapshot state until it is told an outcome, every request must have exactly one", src.name, to, accepted, reported))
+	}
+}
+
+// doubleStream: two followers need a streamed snapshot from B at overlapping times:
+// the second Stream task reaches the apply worker while the first is still queued
+func (w *world) doubleStream(f []string) {
+	ov, pre := u(f[1]), u(f[2])
+	w.flush()
+	src := w.B
+	c1 := w.newFollower(src, pre)
+	c2 := w.newFollower(src, 0)
+	w.cur = "stream." + src.name
+	defer func() { w.cur = "" }()
+	run := func(c *replica) {
+		var received []pb.Message
+		chunks := hk.NewChunk(func(mb pb.MessageBatch) { received = append(received, mb.Requests...) },
+			func(uint64, uint64, uint64) {}, snapRoot, 0, w.fs)
+		to, err := src.node.RunStream(&streamSink{to: c.id, chunks: chunks})
+		if err != nil {
+			panic(err)
+		}
+		if to != c.id || len(received) != 1 {
+			panic(fmt.Sprintf("stream job for replica %d delivered %d messages to replica %d", to, len(received), c.id))
+		}
+		w.installReceived(src, c, received[0].Snapshot, ov)
+		w.cur = "stream." + src.name
+	}
+	a1, r1 := src.node.HandleStreamTask(c1.id)
+	w.outcome(src, c1.id, a1, r1)
+	if !a1 {
+		w.emit("D refused")
+		return
+	}
+	a2, r2 := src.node.HandleStreamTask(c2.id)
+	w.outcome(src, c2.id, a2, r2)
+	w.emit(fmt.Sprintf("D second accepted=%v reported=%v", a2, r2))
+	w.feat["overlapping-stream-requests"] = true
+	run(c1)
+	if a2 {
+		run(c2)
+		return
+	}
+	// raft retries after the failure report
+	a2, r2 = src.node.HandleStreamTask(c2.id)
+	w.outcome(src, c2.id, a2, r2)
+	if !a2 {
+		w.emit("D retry refused")
+		return
+	}
+	run(c2)
+}
+
+// powerSweep: a follower is sent a snapshot by B (streamed for the on-disk kind, the
+// recorded file otherwise) through its real chunk receiver and installs it, on a file
+// system that keeps synced and unsynced state apart; the power fails at every mutating
+// file system operation from the first chunk to the end of node.recover; each time the
+// follower is restarted from what was durable and handed the log: it must come up and
+// end equal to the uninterrupted replica
+func (w *world) powerSweep(f []string) {
+	ov, pre := u(f[1]), u(f[2])
+	w.flush()
+	src := w.B
+	w.cur = "stream." + src.name
+	defer func() { w.cur = "" }()
+	var chunks []pb.Chunk
+	var index uint64
+	if w.p.kind == "disk" {
+		a, r := src.node.HandleStreamTask(1000)
+		w.outcome(src, 1000, a, r)
+		if !a {
+			w.emit("Z refused")
+			return
+		}
+		sink := &recSink{to: 1000}
+		if _, err := src.node.RunStream(sink); err != nil {
+			panic(err)
+		}
+		chunks = sink.chunks
+		if len(chunks) == 0 {
+			panic("empty stream")
+		}
+		index = chunks[0].Index
+		w.emit(fmt.Sprintf("Z stream idx=%d term=%d od=%d", chunks[0].Index, chunks[0].Term, chunks[0].OnDiskIndex))
+	} else {
+		ss := src.node.LogReaderSnapshot()
+		if pb.IsEmptySnapshot(ss) {
+			w.emit("Z no-record")
+			return
+		}
+		var rec pb.Snapshot
+		pb.MustUnmarshal(&rec, pb.MustMarshal(&ss))
+		var err error
+		chunks, err = hk.FileChunks(pb.Message{Type: pb.InstallSnapshot, ShardID: 1, From: src.id, To: 1000, Snapshot: rec}, 0, w.fs)
+		if err != nil {
+			panic(err)
+		}
+		index = ss.Index
+		w.emit(fmt.Sprintf("Z file idx=%d", index))
+	}
+	if pre >= index {
+		pre = index - 1
+	}
+	want := w.A.obs()
+	total := -1
+	for cut := -1; total < 0 || cut < total; cut++ {
+		n, msg := w.receiveWithCut(chunks, pre, ov, cut, want)
+		if cut < 0 {
+			total = n
+			w.feat["power-cut-sweep"] = true
+		}
+		if msg != "" {
+			w.viol = append(w.viol, fmt.Sprintf("RECEIVED-SNAPSHOT-NOT-DURABLE snapshot %d sent by replica %s, power failure at file system operation %d of %d between the first chunk and the end of recover: %s", index, src.name, cut, total, msg))
+			break
+		}
+	}
+	w.emit("Z done")
+}
+
+// receiveWithCut: one follower lifetime. Returns the number of mutating file system
+// operations counted and, for a cut run, what went wrong after the restart ("" = fine)
+func (w *world) receiveWithCut(chunks []pb.Chunk, pre uint64, ov uint64, cut int, want string) (int, string) {
+	mem := hk.NewStrictMemFS()
+	pw := &power{mem: mem, cut: -1}
+	fs := &powerFS{MemFS: mem, p: pw}
+	ldb := &cellLogDB{pw: pw}
+	var disk *diskState
+	if w.p.kind == "disk" {
+		disk = &diskState{}
+	}
+	const id = 1000
+	c := start("C", id, w.p, fs, ldb, disk)
+	c.initialRecover(true)
+	if pre > 0 {
+		c.deliver(w.log[:pre])
+	}
+	if err := c.sm.Sync(); err != nil {
+		panic(err)
+	}
+	pw.cut, pw.enabled = cut, true
+	problem := vh.Catch(func() {
+		var received []pb.Message
+		rcv := hk.NewChunk(func(mb pb.MessageBatch) { received = append(received, mb.Requests...) },
+			func(uint64, uint64, uint64) {}, snapRoot, 0, fs)
+		for _, ch := range chunks {
+			ch.ReplicaID = id
+			if !rcv.Add(ch) {
+				panic("chunk refused")
+			}
+		}
+		if len(received) != 1 {
+			panic(fmt.Sprintf("receiver delivered %d messages", len(received)))
+		}
+		ss := received[0].Snapshot
+		if err := ldb.SaveRaftState([]pb.Update{{ShardID: 1, ReplicaID: id, Snapshot: ss}}, 0); err != nil {
+			panic(err)
+		}
+		if err := c.node.RemoveSnapshotFlagFile(ss.Index); err != nil {
+			panic(err)
+		}
+		if !pw.dead() && ldb.maxIndex < ss.Index {
+			ldb.maxIndex = ss.Index
+		}
+		task, ok, err := c.node.ProcessSnapshot(ss, c.view().LastIndex)
+		if err != nil || !ok {
+			panic(fmt.Sprintf("processSnapshot: %v %v", ok, err))
+		}
+		if _, err := c.node.Recover(task); err != nil {
+			panic(err)
+		}
+		c.removeLog()
+	})
+	n := pw.count
+	if cut < 0 {
+		if problem != "" {
+			panic("receiving without a power failure: " + problem)
+		}
+		c.printed = c.view().Index
+		c.deliver(w.log[c.view().Index:w.flushed])
+		if got := c.obs(); got != want {
+			return n, fmt.Sprintf("without any power failure the follower ends [%s], the uninterrupted replica [%s]", got, want)
+		}
+		return n, ""
+	}
+	// power failure: volatile state is gone; whatever happened after the cut never reached the disk
+	pw.restore()
+	msg := vh.Catch(func() {
+		nc := start("C", id, w.p, fs, ldb, disk)
+		idx := nc.initialRecover(false)
+		if idx < ldb.removedTo {
+			panic(fmt.Sprintf("recovered from snapshot %d but the log was compacted to %d", idx, ldb.removedTo))
+		}
+		from := uint64(1)
+		if idx+1 > ov {
+			from = idx + 1 - ov
+		}
+		if from <= uint64(w.flushed) {
+			nc.deliver(w.log[from-1 : w.flushed])
+		}
+		if got := nc.obs(); got != want {
+			panic(fmt.Sprintf("restarted follower ends [%s], the uninterrupted replica [%s]", got, want))
+		}
+	})
+	return n, msg
 }
 
 // relay: B gets its latest snapshot FROM A (received record, file shrunk after the
@@ -628,19 +934,13 @@ func (w *world) installFrom(tag string, head string, ov uint64, split uint64) {
 	if ss.Index < uint64(w.flushed) {
 		w.feat["install-of-older-record"] = true
 	}
-	env := b.node.SnapshotEnv(ss.Index)
-	// the record travels in an InstallSnapshot message
-	var ssb pb.Snapshot
-	pb.MustUnmarshal(&ssb, pb.MustMarshal(&ss))
-	ssb.Filepath = env.GetFilepath()
-	if err := env.CreateTempDir(); err != nil {
-		panic(err)
-	}
-	copyFile(w.fs, ss.Filepath, env.GetTempFilepath())
-	if err := env.FinalizeSnapshot(&ssb); err != nil {
-		// B already has a snapshot directory of that index
-		env.MustRemoveTempDir()
-	} else if err := env.RemoveFlagFile(); err != nil {
+	ssb, ok := w.deliverFile(ss, w.A.id, b)
+	if !ok {
+		// B already has a snapshot directory of that index: the chunk receiver dropped the stream
+		pb.MustUnmarshal(&ssb, pb.MustMarshal(&ss))
+		env := b.node.SnapshotEnv(ss.Index)
+		ssb.Filepath = env.GetFilepath()
+	} else if err := b.node.RemoveSnapshotFlagFile(ssb.Index); err != nil {
 		panic(err)
 	}
 	if err := b.ldb.SaveRaftState([]pb.Update{{ShardID: 1, ReplicaID: 2, Snapshot: ssb}}, 0); err != nil {
@@ -678,43 +978,12 @@ func (w *world) installFrom(tag string, head string, ov uint64, split uint64) {
 	w.catchUp(b, from, split)
 }
 
-func copyFile(fs hk.IFS, src, dst string) {
-	in, err := fs.Open(src)
-	if err != nil {
-		panic(err)
-	}
-	defer in.Close()
-	st, err := in.Stat()
-	if err != nil {
-		panic(err)
-	}
-	buf := make([]byte, st.Size())
-	if len(buf) > 0 {
-		if _, err := in.ReadAt(buf, 0); err != nil {
-			panic(err)
-		}
-	}
-	out, err := fs.Create(dst)
-	if err != nil {
-		panic(err)
-	}
-	if _, err := out.Write(buf); err != nil {
-		panic(err)
-	}
-	if err := out.Sync(); err != nil {
-		panic(err)
-	}
-	if err := out.Close(); err != nil {
-		panic(err)
-	}
-}
-
 func (w *world) op(o string) {
 	f := strings.Fields(o)
 	if len(f) == 0 {
 		return
 	}
-	need := map[string]int{"a": 5, "c": 6, "t": 1, "b": 1, "y": 1, "L": 1, "S": 6, "R": 4, "I": 3, "T": 6, "M": 3, "W": 4, "P": 1, "K": 3, "V": 3}
+	need := map[string]int{"a": 5, "c": 6, "t": 1, "b": 1, "y": 1, "L": 1, "S": 6, "R": 4, "I": 3, "T": 6, "M": 3, "W": 4, "P": 1, "K": 3, "V": 3, "D": 3, "Z": 3, "Q": 5}
 	if n, ok := need[f[0]]; !ok || len(f) != n {
 		w.emit("? " + f[0])
 		return
@@ -722,8 +991,20 @@ func (w *world) op(o string) {
 	switch f[0] {
 	case "a":
 		idx := uint64(len(w.log) + 1)
-		w.log = append(w.log, pb.Entry{Index: idx, Term: w.term, Type: pb.ApplicationEntry, Key: idx,
-			ClientID: u(f[1]), SeriesID: u(f[2]), RespondedTo: u(f[3]), Cmd: vh.UnHex(f[4])})
+		e := pb.Entry{Index: idx, Term: w.term, Type: pb.ApplicationEntry, Key: idx,
+			ClientID: u(f[1]), SeriesID: u(f[2]), RespondedTo: u(f[3]), Cmd: vh.UnHex(f[4])}
+		w.plain[idx] = e.Cmd
+		// request.go: a proposal with a payload travels as an EncodedEntry
+		enc := w.p.enc
+		if enc == 3 {
+			enc = idx % 3
+		}
+		if len(e.Cmd) > 0 && enc > 0 {
+			e.Type = pb.EncodedEntry
+			e.Cmd = hk.EncodeEntryCmd(enc == 2, e.Cmd)
+			w.feat["encoded-entries"] = true
+		}
+		w.log = append(w.log, e)
 	case "c":
 		idx := uint64(len(w.log) + 1)
 		t, _ := strconv.ParseInt(f[1], 10, 32)
@@ -761,6 +1042,16 @@ func (w *world) op(o string) {
 	case "M":
 		w.flush()
 		w.streamTo(w.B, u(f[1]), u(f[2]))
+	case "Q":
+		w.userSnapshot(w.B, f)
+	case "D":
+		if w.p.kind != "disk" {
+			w.emit("D n/a")
+			return
+		}
+		w.doubleStream(f)
+	case "Z":
+		w.powerSweep(f)
 	case "V":
 		if w.p.kind != "disk" {
 			w.emit("V n/a")
@@ -785,7 +1076,7 @@ func runCase(line string, st *vh.Stats) []string {
 	if err != nil {
 		return []string{strings.Fields(line)[0] + " BADCASE"}
 	}
-	w := &world{id: id, p: p, term: 1, aRes: map[uint64]string{}, feat: map[string]bool{}}
+	w := &world{id: id, p: p, term: 1, aRes: map[uint64]string{}, feat: map[string]bool{}, plain: map[uint64][]byte{}}
 	if p.cap == 0 || (p.kind != "reg" && p.kind != "conc" && p.kind != "disk") {
 		return []string{id + " BADCASE"}
 	}
@@ -855,7 +1146,7 @@ func runCase(line string, st *vh.Stats) []string {
 	}
 	keys := []string{}
 	for _, k := range []string{"snapshot", "restart-from-snapshot", "install", "overlap", "compaction", "update-during-save", "lag", "ondisk-init-skip",
-		"save-inside-task", "install-of-older-record", "send-decision", "received-snapshot-on-B", "stream", "stream-refused", "stream-request-in-replay-window"} {
+		"encoded-entries", "save-inside-task", "install-of-older-record", "send-decision", "received-snapshot-on-B", "overlapping-stream-requests", "power-cut-sweep", "snapshot-through-api", "auto-compaction", "stream", "stream-refused", "stream-request-in-replay-window"} {
 		if w.feat[k] {
 			keys = append(keys, k)
 			st.Count("case with " + k)
